@@ -249,6 +249,10 @@ class _ParallelMapperIter(Iterator[T]):
             try:
                 item, idx = self._out_q.get(block=True, timeout=QUEUE_TIMEOUT)
             except queue.Empty:
+                if self.method == "process" and not all(w.is_alive() for w in self._workers):
+                    # Worker processes only exit once the stop event is set (checked above): a dead
+                    # one took its in-flight item with it, so that item would be waited for forever.
+                    raise RuntimeError("ParallelMapper worker process exited unexpectedly")
                 continue
 
             if isinstance(item, StopIteration):
